@@ -182,6 +182,9 @@ def check(pid, tier):
         # step by step, so the events the specification predicts are compared with what the real client did
         confruns, st = tlcsched.generate(w, 'CONF_%s.cfg' % pid, ntlc, 80, seed + 1, first_id=base, tag='conf:CONF_%s.cfg' % pid,
                                          prefix_every=3 if tier == 'quick' else 2)
+        if pid == 'C03':     # the TCP clause: behaviours of the TCP-mode specification (no acknowledgements, one transmission per Send)
+            more, st = tlcsched.generate(w, 'CONF_tcp.cfg', ntlc // 3, 80, seed + 2, first_id=base + len(confruns), tag='conf:CONF_tcp.cfg')
+            confruns += more
         tlcruns += confruns
         if tier == 'thorough':
             # the same behaviours positioned around the 255 -> 0 wrap of the real modulus
